@@ -84,7 +84,7 @@ func MPDDiff(mpdOld, mpdNew []byte) (doc *etree.Document, expiration time.Time, 
 }
 
 func checkPatchConditions(oldRoot, newRoot *etree.Element) (expiration time.Time, err error) {
-	if oldRoot.Tag != "MPD" || newRoot.Tag != "MPD" {
+	if oldRoot == nil || newRoot == nil || oldRoot.Tag != "MPD" || newRoot.Tag != "MPD" {
 		return expiration, fmt.Errorf("not MPD root element in both MPDs")
 	}
 	newPublishTime := getAttrValue(newRoot, "publishTime")
